@@ -235,14 +235,14 @@ def run_session(case):
         o = dict(kind=op['kind'], tag=None, exc='', out=None, items=[])
         try:
             if op['kind'] == 'filter':
-                new = src.filter_by(include=tuple(rend.key(k, dk) for k in op['incl']),
-                                    exclude=tuple(rend.key(k, dk) for k in op['excl']), **_kwargs(rend, op['kw'], dk))
+                new = src.filter_by(include=tuple(_qkey(rend, k, dk) for k in op['incl']),
+                                    exclude=tuple(_qkey(rend, k, dk) for k in op['excl']), **_kwargs(rend, op['kw'], dk))
                 o['tag'] = 'browser'
             elif op['kind'] == 'select':
                 new = None
                 try:
-                    item = src.select_by(include=tuple(rend.key(k, dk) for k in op['incl']),
-                                         exclude=tuple(rend.key(k, dk) for k in op['excl']), **_kwargs(rend, op['kw'], dk))
+                    item = src.select_by(include=tuple(_qkey(rend, k, dk) for k in op['incl']),
+                                         exclude=tuple(_qkey(rend, k, dk) for k in op['excl']), **_kwargs(rend, op['kw'], dk))
                     o['tag'] = 'item'
                     p, problems = _project_item(rend, item, dk)
                     if problems:
@@ -401,7 +401,7 @@ def to_trace_case(cid, case, got):
     ops = []
     for op, g in zip(case['ops'], got['ops']):
         ops.append(dict(kind=op['kind'], src=op['src'], oth=op['oth'],
-                        kw=sorted([k, abstract_token(rend, v)] for k, v in op['kw'].items()), incl=op['incl'], excl=op['excl'],
+                        kw=sorted([k, abstract_token(rend, v)] for k, v in op['kw'].items()), incl=_abs_incl(op), excl=[k for k in op['excl'] if k != DATA],
                         tag=g['tag'], out=_jbrowser(rend, g['out']),
                         items=[dict(id=it['id'], meta=sorted([k, abstract_token(rend, v)] for k, v in it['meta'].items())) for it in g['items']]))
     final = [_jbrowser(rend, p) for p in got['final']]
@@ -594,11 +594,31 @@ def random_case(rng, rendering):
                     op['kw'][k] = rng.choice(sub + [rng.choice(toks)])
             op['incl'] = sorted(rng.sample(qkeys, rng.choice([0, 0, 1, 2])))
             op['excl'] = sorted(rng.sample(qkeys, rng.choice([0, 0, 1, 2])))
+            if rng.random() < 0.15:
+                op['incl'] = sorted(op['incl'] + [DATA])
+            elif rng.random() < 0.08:
+                op['excl'] = sorted(op['excl'] + [DATA])
             if kind == 'filter':
                 nbrs += 1
                 dks.append(dks[src - 1])
         ops.append(op)
     return dict(rendering=rendering, bases=bases, ops=ops, askKeys=keys + ['kx'], explicitDefault=rng.random() < 0.5)
+
+
+DATA = '<data key>'      # query token: the data key of the source browser named among the required / forbidden keys
+
+
+def _qkey(rend, k, dk):
+    return dk if k == DATA else rend.key(k, dk)
+
+
+def _abs_incl(op):
+    """Every item carries its data: requiring the data key changes nothing, forbidding it selects nothing.  In the
+    abstract query (items are their metadata) the latter is a required key that no item has."""
+    incl = [k for k in op['incl'] if k != DATA]
+    if DATA in op['excl']:
+        incl = sorted(incl + ['__no_item_has_this_key__'])
+    return incl
 
 
 def run_c17(ctx):
